@@ -29,7 +29,8 @@ LEVEL_NOTE = 'Trusted: pyarrow.parquet.read_table as independent reader; Python 
 TECHNIQUE = 'bounded-exhaustive configuration grid exploration of the real parquet writer/reader against an independent reader'
 
 SCHEMA = pa.schema([('i', pa.int64()), ('s', pa.string()), ('f', pa.float64())])
-WIDE = {n: pa.schema([('c%d' % j, pa.int64()) for j in range(n)]) for n in (5, 6, 7, 8)}
+WIDE = {n: pa.schema([('c%d' % j, pa.int64()) for j in range(n)]) for n in (1, 2, 5, 6, 7, 8)}
+ONE_STR = pa.schema([('s', pa.string())])          # a single string column (a row is a 1-tuple, a string is iterable)
 NESTED = pa.schema([('i', pa.int64()), ('p', pa.struct([('x', pa.int32()), ('y', pa.string())])), ('l', pa.list_(pa.int64()))])
 
 
@@ -91,6 +92,11 @@ def cases(unit):
             yield {'fam': 'variants', 'rows': n, 'batch': 4096, 'row_group_size': None, 'nested': False, 'fileobj': False, 'wide': ncols}
         for n, b in ((600, 300), (601, 300), (257, 257)):
             yield {'fam': 'variants', 'rows': n, 'batch': b, 'row_group_size': None, 'nested': False, 'fileobj': False}
+        for n, b in ((0, 2), (1, 2), (3, 2), (4, 2)):
+            for w in (1, 2, 'str'):
+                yield {'fam': 'variants', 'rows': n, 'batch': b, 'row_group_size': None, 'nested': False, 'fileobj': False, 'wide': w}
+            yield {'fam': 'variants', 'rows': n, 'batch': b, 'row_group_size': None, 'nested': False, 'fileobj': 'bytesio'}
+        yield {'fam': 'rewrite'}
         for n, b in ((0, 2), (5, 2), (6, 2), (6, 3), (7, 10)):
             for rg in (None, 3):
                 for nested in (False, True):
@@ -116,12 +122,45 @@ def classify(rows, got):
     return 'row-values-differ'
 
 
+def run_rewrite(case, acc):
+    """The same path written three times with different schemas (other column names, other column order, fewer columns) and
+    loaded after each write: what is loaded is what the file holds now, not what an earlier file at that path held."""
+    out = []
+    d = tempfile.mkdtemp(prefix='c20-')
+    try:
+        path = os.path.join(d, 'same.parquet')
+        for step, cols in enumerate((['a', 'b', 'c'], ['c', 'a', 'b'], ['b', 'z'], ['a', 'b', 'c'])):
+            schema = pa.schema([(c, pa.int64()) for c in cols])
+            rows = [{c: 100 * step + 10 * k + j for j, c in enumerate(cols)} for k in range(4)]
+            s = RawSink()
+            s.subscribe_to(rx.from_(rows).pipe(rsparquet.dump_to_file(path, schema, batch_size=3)))
+            r = RawSink()
+            r.subscribe_to(rsparquet.load_from_file(path, batch_size=2))
+            acc.evals += 2
+            acc.events += 10
+            if s.error is not None or r.error is not None or r.completed != 1:
+                out.append(viol('rewrite', 'rewritten-file-not-loaded', {'step': step, 'columns': cols, 'error': repr(s.error or r.error)}))
+                break
+            if r.items != rows:
+                out.append(viol('rewrite', 'rewritten-file-loads-other-rows', {'step': step, 'columns': cols, 'expected': rows[:2], 'loaded': r.items[:2]}))
+                break
+        acc.count('rewritten_paths')
+    finally:
+        shutil.rmtree(d, ignore_errors=True)
+    return out
+
+
 def run_case(case, acc):
+    if case['fam'] == 'rewrite':
+        return run_rewrite(case, acc)
     n, b = case['rows'], case['batch']
     nested = case.get('nested', False)
     schema = NESTED if nested else SCHEMA
     rows = rows_of(n, nested)
-    if case.get('wide'):
+    if case.get('wide') == 'str':
+        schema = ONE_STR
+        rows = [{'s': 'row-%d' % k} for k in range(n)]
+    elif case.get('wide'):
         schema = WIDE[case['wide']]
         rows = [{'c%d' % j: k * 10 + j for j in range(case['wide'])} for k in range(n)]
     codec = case.get('codec', 'snappy')
@@ -131,14 +170,24 @@ def run_case(case, acc):
         path = os.path.join(d, 'f.parquet')
         target = path
         fobj = None
-        if case.get('fileobj'):
+        if case.get('fileobj') == 'bytesio':
+            import io
+            fobj = io.BytesIO()                 # an in-memory file object: its content is only reachable through the object
+            target = fobj
+        elif case.get('fileobj'):
             fobj = open(path, 'wb')
             target = fobj
         s = RawSink()
         dump_obs = rx.from_(rows).pipe(rsparquet.dump_to_file(target, schema, batch_size=b, compression=codec,
                                                               row_group_size=case.get('row_group_size')))
         s.subscribe_to(dump_obs)
-        if fobj is not None:
+        if case.get('fileobj') == 'bytesio':
+            try:
+                with open(path, 'wb') as f:
+                    f.write(fobj.getvalue())
+            except Exception as e:
+                return [viol(case['fam'], 'in-memory-file-object-unusable-after-dump', dict(case, error=repr(e)))]
+        elif fobj is not None:
             fobj.close()
         elif n <= 4:
             # the same observable subscribed again rewrites the same file (the content is compared below)
